@@ -91,7 +91,7 @@ func runC19(c *core.Ctx) {
 	c.Check("C19-R1", "census", "all functions of package pdf and internal/filter were analysed", func(o *core.Ob) {
 		o.Count(nFuncs)
 		o.Fact("%d functions analysed, %d sinks examined", nFuncs, nFind)
-		o.Require(nFuncs >= 600, "only %d functions analysed", nFuncs)
+		o.Shape(nFuncs >= 600, "only %d functions analysed", nFuncs)
 	})
 }
 
